@@ -97,6 +97,13 @@ func NewDHCP(xid uint32, op DHCPOperation, hwtype byte) (*DHCP, error) {
 	return d, nil
 }
 
+// dhcpIP4 is the 4-byte wire form of an address field (net.ParseIP and friends return the 16-byte form)
+func dhcpIP4(ip net.IP) []byte {
+	b := make([]byte, 4)
+	copy(b, ip.To4())
+	return b
+}
+
 func (d *DHCP) Len() (n uint16) {
 	n += uint16(240)
 	optend := false
@@ -128,13 +135,13 @@ func (d *DHCP) Read(b []byte) (n int, err error) {
 	n += 2
 	binary.Write(buf, binary.BigEndian, d.Flags)
 	n += 2
-	binary.Write(buf, binary.BigEndian, d.ClientIP)
+	binary.Write(buf, binary.BigEndian, dhcpIP4(d.ClientIP))
 	n += 4
-	binary.Write(buf, binary.BigEndian, d.YourIP)
+	binary.Write(buf, binary.BigEndian, dhcpIP4(d.YourIP))
 	n += 4
-	binary.Write(buf, binary.BigEndian, d.ServerIP)
+	binary.Write(buf, binary.BigEndian, dhcpIP4(d.ServerIP))
 	n += 4
-	binary.Write(buf, binary.BigEndian, d.GatewayIP)
+	binary.Write(buf, binary.BigEndian, dhcpIP4(d.GatewayIP))
 	n += 4
 	clientHWAddr := make([]byte, 16)
 	copy(clientHWAddr[0:], d.ClientHWAddr)
